@@ -1859,3 +1859,38 @@ Lemma end_of_range_not_dereferenced :
   run_derefs 0 inp' false [spec_str 1] = [4099] /\
   show_args_b [] [spec_str 1] (payload (run 0 inp' false [spec_str 1])) = [40; 34; 34; 41].
 Proof. vm_compute. repeat split; reflexivity. Qed.
+
+(* ------------------------------------------------------------------ writer's spec list = readers' spec list *)
+(* for every combination of explicit and automatic options the readers rebuild exactly the list libmcount used *)
+Theorem reader_entry_eq_writer : forall o, reader_entry o = writer_entry o.
+Proof. reflexivity. Qed.
+
+(* an explicit spec of one direction hides the automatic specs of that direction as a whole *)
+Lemma explicit_hides_auto : forall o,
+  o_ea o <> [] -> o_er o <> [] ->
+  e_specs (writer_entry o) = fold_left add_arg_spec (o_er o) (fold_left add_arg_spec (o_ea o) []).
+Proof.
+  intros [ea er aa ar] Ha Hr. unfold writer_entry. cbn [o_ea o_er o_aa o_ar] in *.
+  destruct ea as [|a ea']; [congruence|]. destruct er as [|r er']; [congruence|].
+  cbn [opt_apply entry0 e_args e_ret e_specs andb orb negb].
+  destruct aa; destruct ar; reflexivity.
+Qed.
+
+(* `uftrace record -a -A 'strtol@arg3/i32'`: auto-args knows strtol@arg1/s,arg2/p,arg3/d32.  Writer (and reader): the
+   explicit arg3/i32 only.  A reader that applies the automatic specs first merges the explicit one into them and
+   expects three values where one was written: it reads 20 bytes behind a 4-byte payload. *)
+Definition strtol_opts : fopts :=
+  {| o_ea := [Sp 3 FSint 4 TIndex 0]; o_er := [];
+     o_aa := [Sp 1 FStr 8 TIndex 0; Sp 2 FPtr 8 TIndex 0; Sp 3 FAuto 4 TIndex 0]; o_ar := [Sp 0 FAuto 8 TIndex 0] |}.
+Lemma auto_first_reader_refuted :
+  e_specs (writer_entry strtol_opts) = [Sp 3 FSint 4 TIndex 0; Sp 0 FAuto 8 TIndex 0] /\
+  e_specs (reader_entry strtol_opts) = e_specs (writer_entry strtol_opts) /\
+  e_specs (reader_entry_auto_first strtol_opts) =
+    [Sp 1 FStr 8 TIndex 0; Sp 2 FPtr 8 TIndex 0; Sp 3 FSint 4 TIndex 0; Sp 0 FAuto 8 TIndex 0] /\
+  (* the payload libmcount writes for strtol("12", 0, 10) is the 4 bytes of arg3; that reader cannot frame it *)
+  let inp := {| regs := [4096; 0; 10; 0; 0; 0]; xmm := []; stk := []; rets := []; strs := [(4096, [49; 50])]; wrds := [] |} in
+  payload (run 0 inp false (e_specs (writer_entry strtol_opts))) = Some [10; 0; 0; 0] /\
+  read_args false (e_specs (writer_entry strtol_opts)) ([10; 0; 0; 0; 0; 0; 0; 0] ++ next_rec) = Some ([10; 0; 0; 0], next_rec) /\
+  read_args false (e_specs (reader_entry_auto_first strtol_opts)) ([10; 0; 0; 0; 0; 0; 0; 0] ++ next_rec) <>
+    Some ([10; 0; 0; 0], next_rec).
+Proof. vm_compute. repeat split; try reflexivity. discriminate. Qed.
